@@ -46,6 +46,11 @@ def seq_families(tier):
                                          maxPull=0, allowFail=False, reentrant=True), None)
     F["share2_re"] = (scen.with_bounds(scen.share_g("push"), "share", sinks=["probe", "probe"], maxData=2,
                                        maxTop=3, maxPull=0, allowFail=False, reentrant=True), None)
+    # two subscriptions of the same output (the properties are stated per subscription)
+    tb = dict(maxData=1, maxTop=4, maxPull=0, allowFail=True, burst=False, sinks=["probe", "probe"])
+    for kind in ("merge", "concat", "combine"):
+        F[kind + "2_2s"] = (scen.with_bounds(scen.nary(kind, 2), kind, **tb), None)
+    F["take1_2s"] = (scen.with_bounds(scen.unary("take", n=1), "take", **dict(tb, maxPull=1)), None)
     nb = dict(maxData=1, maxTop=3, maxPull=1, allowFail=True)
     nb3 = dict(maxData=1, maxTop=2 if q else 3, maxPull=1, allowFail=True)
     nbig = dict(maxData=3, maxTop=6, maxPull=3, allowFail=True, sinkErr=True)
@@ -70,12 +75,34 @@ def seq_families(tier):
 
 GENERIC = ["C01", "C02", "C03", "C04", "C05", "C17"]
 
+BIG = ("merge3", "combine3", "concat3", "share2", "merge2_late", "flatten2", "combine2", "merge2", "concat2",
+       "take1_2s")
+
+
+def group_small(fams):
+    """one TLC run (one JVM) for a batch of small scenario families: the model picks the scenario in
+    its initial state (variable ci)"""
+    groups = {}
+    out = []
+    for n, c, r in fams:
+        if n in BIG or isinstance(c, list):
+            out.append((n, c, r))
+            continue
+        kind = c["fam"]
+        g = "unary" if kind in ("map", "filter", "scan", "take", "skip") else "nary_small"
+        if n.endswith("_re") or n.endswith("_r2"):
+            g += "_re"
+        groups.setdefault(g, []).append((n, c, r))
+    for g, items in groups.items():
+        out.append((g, [c for _, c, _ in items], [r for _, _, r in items if r is not None] or None))
+    return out
+
 
 def plan(prop, tier):
     """list of (name, cfg, rand_cfg) for this property"""
     F = seq_families(tier)
     if prop in GENERIC:
-        fams = [(n, c, r) for n, (c, r) in F.items()]
+        fams = group_small([(n, c, r) for n, (c, r) in F.items()])
         if prop == "C17":
             # C17 only: upstreams that greet later than the subscribing call, for every operator (the other
             # properties quantify over late greeters for merge! only)
@@ -254,7 +281,9 @@ STAGES = ([("map", dict(f=f)) for f in ("inc", "dbl")]
           + [("scan", dict(r="add", seed=0)), ("scan", dict(r="lin", seed=5))]
           + [("take", dict(n=n)) for n in (1, 2)] + [("skip", dict(n=n)) for n in (1, 2)]
           + [("flatmap", dict(g=g)) for g in ("rep", "upto", "oddonly")]
-          + [("concat_r", dict(ys=ys)) for ys in ([], [7, 8])] + [("concat_l", dict(ys=[9]))])
+          + [("concat_r", dict(ys=ys)) for ys in ([], [7, 8])] + [("concat_l", dict(ys=[9]))]
+          # three members: an empty one in the middle, and the pipeline itself in the middle
+          + [("concat_3", dict(ys=[], zs=[7])), ("concat_m", dict(ys=[9], zs=[7]))])
 
 
 def build_pipeline(xs, stages):
@@ -265,10 +294,15 @@ def build_pipeline(xs, stages):
         nodes.append({"id": 1, "kind": "from_iter", "items": list(xs)})
     cur = 1
     for kind, par in stages:
-        if kind in ("concat_r", "concat_l"):
+        if kind in ("concat_r", "concat_l", "concat_3", "concat_m"):
             nodes.append({"id": len(nodes) + 1, "kind": "from_iter", "items": list(par["ys"])})
             other = len(nodes)
-            ups = [cur, other] if kind == "concat_r" else [other, cur]
+            if kind in ("concat_3", "concat_m"):
+                nodes.append({"id": len(nodes) + 1, "kind": "from_iter", "items": list(par["zs"])})
+                third = len(nodes)
+                ups = [cur, other, third] if kind == "concat_3" else [other, cur, third]
+            else:
+                ups = [cur, other] if kind == "concat_r" else [other, cur]
             nodes.append({"id": len(nodes) + 1, "kind": "concat", "ups": ups})
         else:
             nodes.append(dict({"id": len(nodes) + 1, "kind": kind, "ups": [cur]}, **par))
@@ -296,7 +330,8 @@ def stage_seqs(depth):
 
 QUICK_STAGES = [("map", dict(f="inc")), ("filter", dict(p="even")), ("scan", dict(r="lin", seed=5)),
                 ("take", dict(n=2)), ("skip", dict(n=1)), ("flatmap", dict(g="upto")),
-                ("flatmap", dict(g="oddonly")), ("concat_r", dict(ys=[7, 8])), ("concat_l", dict(ys=[9]))]
+                ("flatmap", dict(g="oddonly")), ("concat_r", dict(ys=[7, 8])), ("concat_l", dict(ys=[9])),
+                ("concat_3", dict(ys=[], zs=[7])), ("concat_m", dict(ys=[9], zs=[7]))]
 
 
 def terminates_on_unbounded(sq):
@@ -305,7 +340,8 @@ def terminates_on_unbounded(sq):
     if "take" not in kinds:
         return False
     before = sq[:kinds.index("take")]
-    return not any(k == "concat_r" or (k == "filter" and p.get("p") == "none") for k, p in before)
+    return not any(k in ("concat_r", "concat_3", "concat_m") or (k == "filter" and p.get("p") == "none")
+                   for k, p in before)
 
 
 def pipeline_plan(tier, chunk=150):
